@@ -22,6 +22,8 @@ Consume ==
                      \o XFail(e.built /\ e.decerr = "" /\ e.redec # want, "C16:decoding-then-encoding-changes-the-message")
                      \o XFail(e.built /\ e.note # "", "C16:decoded-value-differs")
                      \o XFail(e.built /\ e.truncok # e.trunc, "C16:truncated-message-accepted")
+                     \o XFail(e.mutpanic > 0, "C16,C11:decoder-panics-on-a-malformed-message")
+                     \o XFail(e.mutunstable > 0, "C16:accepted-malformed-message-does-not-re-encode-to-the-value-decoded")
             IN (IF v = <<>> THEN TRUE ELSE Report(l, v, e)) /\ UNCHANGED ndisp
        [] e.ev = "dispatch" ->
             LET v == XFail(~e.found, "C16:procedure-number-not-registered")
